@@ -102,7 +102,15 @@ func finishPoly(p Poly) Poly {
 			pts = append(pts, s2.PointFromLatLng(s2ll(q)))
 		}
 		ul := s2.LoopFromPoints(pts)
-		ok := ul.Validate() == nil && math.Abs(1.0-(ul.Area()/l.Area())) < 0.0001
+		ok := ul.Validate() == nil
+		if ok && !(math.Abs(1.0-(ul.Area()/l.Area())) < 0.0001) {
+			// fixes/C01-small-polygon-area-tolerance.patch: the change quantisation can cause is allowed
+			perimeter := 0.0
+			for j := range pts {
+				perimeter += float64(pts[j].Distance(pts[(j+1)%len(pts)]))
+			}
+			ok = math.Abs(ul.Area()-l.Area()) <= perimeter*(math.Pi/180.0*1e-7)
+		}
 		p.Loops = append(p.Loops, e7s)
 		p.Dropped = append(p.Dropped, !ok)
 	}
@@ -697,10 +705,32 @@ func generate(r *hx.Rand, thorough bool) ([]Feat, []string) {
 		g.note("area:loops-multi")
 		return finishPoly(Poly{Raw: raw})
 	}
+	// a small polygon (1 m … 100 m) whose vertices are not on the E7 grid, at the case's latitude
+	explicitSmall := func() Poly {
+		tri++
+		c := g.circle(tri, 389, 400000)
+		sizes := []float64{1, 2, 3, 6, 10, 20, 30, 60, 100}
+		size := sizes[r.Intn(len(sizes))]
+		d := size / 111320.0
+		lat0 := float64(c.Lat)/1e7 + float64(r.Intn(1000))*1.2345e-10
+		lng0 := float64(c.Lng)/1e7 + float64(r.Intn(1000))*0.9876e-10
+		dl := d / math.Cos(lat0*math.Pi/180)
+		m := 3 + r.Intn(4)
+		loop := make([][2]float64, m)
+		for k := 0; k < m; k++ {
+			a := 2 * math.Pi * float64(k) / float64(m)
+			loop[k] = [2]float64{lat0 + d/2*math.Sin(a), lng0 + dl/2*math.Cos(a)}
+		}
+		g.note(fmt.Sprintf("area:small-polygon-%dm", int(size)))
+		return finishPoly(Poly{Raw: [][][2]float64{loop}})
+	}
 	explicit1 := explicit
 	explicit = func() Poly {
-		if r.Chance(1, 4) {
+		switch r.Intn(8) {
+		case 0, 1:
 			return explicitMulti()
+		case 2, 3:
+			return explicitSmall()
 		}
 		return explicit1()
 	}
